@@ -171,6 +171,7 @@ def lean_tree(t):
 X = np.array([0.3, -1.2, 2.0])
 Y = np.array([0.7, 0.4, -0.9])
 Z = np.array([0.1, 0.1, 0.1])
+Z2 = np.array([0.9, -0.4, 1.7])
 
 
 def check_tree(ctx, t, dev_solve=None, with_model_lines=None):
@@ -197,14 +198,16 @@ def check_tree(ctx, t, dev_solve=None, with_model_lines=None):
         fail("td-flag", f"{show(t)}.time_dependent = {p.time_dependent}, expected {td}")
     # evaluation at array and scalar arguments, with and without z, with and without t
     leaves = {k: mk_leaf(k) for k in LEAVES}
-    argsets = [(X, Y, Z), (X, Y, None)]
+    # the SAME object is evaluated again and again (no cache clearing in between): same (x, y) at another height z,
+    # another time, other positions, and the first arguments once more
+    argsets = [(X, Y, Z), (X, Y, None), (X, Y, Z2), (Y, X, Z2), (X, Y, Z)]
     if depth_of(t) <= 1 or (hash(show(t)) % 4 == 0):  # scalar arguments: all shallow trees, a quarter of the deeper ones
-        argsets += [(0.3, 0.7, 0.1), (0.3, 0.7, None)]
+        argsets += [(0.3, 0.7, 0.1), (0.3, 0.7, None), (0.3, 0.7, -0.6)]
     for (x, y, z) in argsets:
-        tts = (0.4,) if td else ((None,) if depth_of(t) == 0 else (None, 0.4))
+        tts = (0.4, 0.9) if td else ((None,) if depth_of(t) == 0 else (None, 0.4))
         for tt in tts:
             got = outcome(p, x, y, z, tt)
-            want = oracle(t, leaves, x, y, z, 0.4 if tt is None else tt)
+            want = oracle(t, leaves, x, y, z, 0.4 if tt is None else tt)  # (tt None only for time-independent trees: t unused)
             ctx.count("eval_ok" if got[0] == "val" else f"eval_{got[1]}")
             if got[0] != want[0] or (got[0] == "exc" and got[1] != want[1]):
                 fail(f"eval:{got[1] if got[0] == 'exc' else 'value-vs-exception'}", f"evaluating {show(t)} gives {got} but combining the operands' values gives {want}")
